@@ -66,7 +66,25 @@ class Unrecognised(Exception):
     pass
 
 
-def classify(F, fn, input_term=None, domain=None):
+def _subterms(t, acc=None):
+    acc = acc if acc is not None else []
+    if isinstance(t, tuple):
+        acc.append(t)
+        for x in t:
+            if isinstance(x, tuple):
+                _subterms(x, acc)
+    return acc
+
+
+def _replace(t, old, new):
+    if t == old:
+        return new
+    if not isinstance(t, tuple):
+        return t
+    return tuple(_replace(x, old, new) if isinstance(x, tuple) else x for x in t)
+
+
+def classify(F, fn, input_term=None, domain=None, target=0, expand=True):
     """Returns (input_term, [(interval_set, outcome_term, bb)], tb).
 
     outcome_term is the term assigned to the return place in that piece."""
@@ -147,9 +165,11 @@ def classify(F, fn, input_term=None, domain=None):
                 state[tg] = union(state.get(tg, ()), cur)
     # ---- outcomes: every assignment to _0
     pieces = []
-    for site in tb.defs.get(0, []):
+    for site in tb.defs.get(target, []):
         kind, b, i, proj = site
         if b not in state:
+            continue
+        if proj and proj[0] == "*":
             continue
         if kind == "stmt":
             st = body.stmts(b)[i]
@@ -176,6 +196,24 @@ def classify(F, fn, input_term=None, domain=None):
             merged.append((s_, v_, b_))
     # re-check: merging must not hide a real overlap between *different* values
     pieces = merged
+    if expand:
+        # an arm whose value still depends on a local chosen by the same classification
+        # (`let t = match x {..}; Wrap(t)`): classify that local on the arm's interval and substitute
+        out = []
+        for (s_, v_, b_) in pieces:
+            phis = {x for x in _subterms(v_) if isinstance(x, tuple) and len(x) > 3 and x[0] == "opq" and x[1] == "phi"}
+            if len(phis) == 1 and s_:
+                ph = next(iter(phis))
+                try:
+                    _, sub, _ = classify(F, fn, input_term=input_term, domain=s_, target=ph[2], expand=False)
+                except Unrecognised:
+                    sub = None
+                if sub and all(x[1][0] != "diverge" for x in sub):
+                    for (s2, v2, b2) in sub:
+                        out.append((s2, _replace(v_, ph, v2), b_))
+                    continue
+            out.append((s_, v_, b_))
+        pieces = out
     # exclusivity / totality
     cov = ()
     for (s, _, _) in pieces:
